@@ -302,6 +302,42 @@ func c13(r *hx.Run) {
 			}
 		}
 	}
+	// degenerate calls: an empty batch and an unsupported compression algorithm must give an error and write nothing
+	for ci, tc := range []struct {
+		name string
+		alg  string
+		seq  []qsym
+	}{{"empty-batch", p.CompressionAlgorithm, nil}, {"unknown-compression", "ZSTD-UNKNOWN", []qsym{{0, "C"}, {1, "U"}}}, {"empty-compression-name", "", []qsym{{0, "C"}}}} {
+		caseID := fmt.Sprintf("degenerate|%d|%s", ci, tc.name)
+		if !r.Want(caseID) {
+			continue
+		}
+		pp := p
+		pp.CompressionAlgorithm = tc.alg
+		cas := fx.NewMemCAS()
+		ver := fx.NewVersion(pp, &fx.VersionOpts{CAS: cas})
+		var queued []*operation.QueuedOperation
+		for _, q := range tc.seq {
+			queued = append(queued, dids[q.did].Queued(q.key, "did:sidetree"))
+		}
+		var info *protocol.AnchoringInfo
+		var err error
+		func() {
+			defer func() {
+				if pn := recover(); pn != nil {
+					r.Violation("panic:PrepareTxnFiles", caseID, fmt.Sprint(pn), nil)
+					err = fmt.Errorf("panic")
+				}
+			}()
+			info, err = ver.Handler.PrepareTxnFiles(queued)
+		}()
+		r.Eval()
+		r.State()
+		r.Nontrivial(caseID)
+		if err == nil {
+			r.Violation("degenerate-batch-anchored:"+tc.name, caseID, fmt.Sprintf("%s produced anchor string %v", tc.name, info), nil)
+		}
+	}
 	// SHA2-512 protocol
 	p512 := p
 	p512.MultihashAlgorithms = []uint{fx.SHA512, fx.SHA256}
